@@ -99,13 +99,20 @@ func main() {
 		os.Exit(2)
 	}
 	items = append(items, gen...)
-	repo, err := hx.RepoCorpus(repoPats)
+	if strings.HasPrefix(*only, "gen/") {
+		repoPats, ntd = nil, -1 // replaying a generated item: the other corpora are not needed
+	}
+	rndTD := rnd.Fork()
+	var repo []*hx.CorpusItem
+	if len(repoPats) > 0 {
+		repo, err = hx.RepoCorpus(repoPats)
+	}
 	if err != nil {
 		res.LoadErrors = append(res.LoadErrors, "repo: "+err.Error())
 	}
 	items = append(items, repo...)
 	if ntd >= 0 {
-		items = append(items, hx.TestdataCorpus(hx.Sample(rnd.Fork(), hx.TestdataDirs(), ntd))...)
+		items = append(items, hx.TestdataCorpus(hx.Sample(rndTD, hx.TestdataDirs(), ntd))...)
 	}
 
 	seen := map[[20]byte]*Case{} // identical (label, body, types) are evaluated once, across items and modes
